@@ -431,6 +431,13 @@ fn tokenize(input: &str) -> Result<Vec<Token>> {
             ',' => Token::Comma,
             ' ' | '\t' => Token::Whitespace,
             '\'' | '"' => {
+                // whatever has been collected so far is a token of its own
+                in_elref_id = false;
+                if !buffer.is_empty() {
+                    let buffer_token = tokenize_atom(&buffer.iter().collect::<String>())?;
+                    buffer.clear();
+                    tokens.push(buffer_token);
+                }
                 in_quote = Some(ch);
                 continue;
             }
@@ -455,12 +462,12 @@ fn tokenize(input: &str) -> Result<Vec<Token>> {
         }
     }
 
+    if in_quote.is_some() {
+        return Err(SvgdxError::ParseError(format!(
+            "Missing closing quote in '{input}'"
+        )));
+    }
     if !buffer.is_empty() {
-        if in_quote.is_some() {
-            return Err(SvgdxError::ParseError(format!(
-                "Missing closing quote in '{input}'"
-            )));
-        }
         let buffer_token = tokenize_atom(&buffer.iter().collect::<String>())?;
         buffer.clear();
         tokens.push(buffer_token);
